@@ -46,6 +46,10 @@ class EdgeList:
             corner_1 = data[0]
             corner_2 = data[1]
 
+            # beams are listed by ascending corners but a face's closing edge runs from its last point to the first
+            if (corner_1, corner_2) in ((0, 3), (4, 7)):
+                corner_1, corner_2 = corner_2, corner_1
+
             vertex_1 = vertices[corner_1]
             vertex_2 = vertices[corner_2]
 
